@@ -317,6 +317,51 @@ def bounded(rep, tier, seed):
                 continue
         if not ok:
             fails.append({"a": str(ta), "b": str(tb), "law": "t1 - t2 / (t + d) - d / (t + d) - t"})
+    # the same laws on timestamps WRITTEN with different UTC offsets: a difference is a difference of instants
+    def iso(inst_us, off):
+        sign = -1 if off[0] == "-" else 1
+        omin = sign * (int(off[1:3]) * 60 + int(off[4:6]))
+        loc = epoch + datetime.timedelta(microseconds=inst_us + omin * 60000000)
+        return f"{loc.year:04d}-{loc.month:02d}-{loc.day:02d}T{loc.hour:02d}:{loc.minute:02d}:{loc.second:02d}{off}"
+    for _ in range(1500 if tier == "thorough" else 150):
+        n += 1
+        a = rng.randrange(days_from_civil(3, 1, 1), days_from_civil(9997, 1, 1)) * 86400000000 + rng.randrange(86400) * 1000000
+        b = a + rng.choice([0, 1, -1, 3600, -7200, 86400, rng.randrange(-10**9, 10**9)]) * 1000000
+        oa, ob = rng.choice(offsets), rng.choice(offsets)
+        try:
+            ta, tb = T(iso(a, oa)), T(iso(b, ob))
+            d = bf["_-_"](ta, tb)
+            ok = type(d) is ct.DurationType and d == datetime.timedelta(microseconds=a - b) and bool(bf["_==_"](bf["_+_"](tb, d), ta)) \
+                and bool(bf["_<_"](ta, tb)) == (a < b) and bool(bf["_==_"](ta, tb)) == (a == b)
+        except Exception as ex:
+            ok = False
+            d = repr(ex)[:80]
+        if not ok:
+            fails.append({"a": iso(a, oa), "b": iso(b, ob), "law": "t1 - t2 is the difference of the instants, whatever offsets they are written with", "observed": repr(d)})
+    # accessors with IANA zone names, historical offsets with a seconds part included (reference: the standard library's zoneinfo)
+    try:
+        import zoneinfo
+        zones = [("Africa/Monrovia", 1970), ("Europe/Amsterdam", 1930), ("America/New_York", 1880), ("Asia/Kolkata", 2020), ("Australia/Lord_Howe", 2021),
+                 ("Pacific/Apia", 2011), ("Europe/London", 2024), ("UTC", 2000)]
+        for zn, year in zones:
+            z = zoneinfo.ZoneInfo(zn)
+            for _ in range(40 if tier == "thorough" else 6):
+                inst = datetime.datetime(year, rng.randrange(1, 13), rng.randrange(1, 28), rng.randrange(24), rng.randrange(60), rng.randrange(60), tzinfo=datetime.timezone.utc)
+                loc = inst.astimezone(z)
+                t = T(inst)
+                want = {"getFullYear": loc.year, "getMonth": loc.month - 1, "getDate": loc.day, "getDayOfMonth": loc.day - 1, "getDayOfYear": loc.timetuple().tm_yday - 1,
+                        "getDayOfWeek": (loc.weekday() + 1) % 7, "getHours": loc.hour, "getMinutes": loc.minute, "getSeconds": loc.second}
+                for g, w in want.items():
+                    n += 1
+                    try:
+                        got = bf[g](t, ct.StringType(zn))
+                        ok = type(got) is ct.IntType and got == w
+                    except Exception as ex:
+                        got, ok = repr(ex)[:80], False
+                    if not ok:
+                        fails.append({"timestamp": str(t), "zone": zn, "getter": g, "observed": repr(got), "expected": w})
+    except ImportError:
+        pass
     # duration text grammar
     for h, m, s, ms in itertools.product((0, 1, 25), (0, 59, 90), (0, 1, 59), (0, 1, 999)):
         for sign in ("", "-", "+"):
